@@ -230,6 +230,16 @@ func (x *Exec) run() {
 		for k, v := range fvVals {
 			penv.vars[k] = v
 		}
+		// a captured variable named in a postcondition denotes its value at the exit (the closure may have assigned
+		// it); for captured variables the closure does not assign that is the entry value
+		for i, fv := range fn.FreeVars {
+			elem := fv.Type().Underlying().(*types.Pointer).Elem()
+			pl := x.ptrPlace(binds[i], elem)
+			func() {
+				defer func() { recover() }()
+				penv.vars[fv.Name()] = SVal{x.loadPlace(out, pl), goT(elem)}
+			}()
+		}
 		for _, c := range x.fc.Exits {
 			x.ghostAssign(out, penv, c)
 		}
